@@ -600,6 +600,9 @@ func GenWorld(r *Rng, opts GenOpts, variantCount int) *WorldSpec {
 							b.WriteString("\n\n\t// ---- next group ----\n\n")
 						case 2:
 							b.WriteString("\t/* a block comment */\n")
+						case 3:
+							// a notation detached from any doc comment by a blank line
+							b.WriteString("\t// :typecast\n\n")
 						}
 					}
 					for _, l := range m.doc {
@@ -613,6 +616,9 @@ func GenWorld(r *Rng, opts GenOpts, variantCount int) *WorldSpec {
 					} else {
 						b.WriteString("\t" + m.sig + "\n")
 					}
+				}
+				if layoutNoise && vr.Chance(1, 3) {
+					b.WriteString("\n\t// :stringer\n") // a lone notation before the closing brace
 				}
 				b.WriteString("}\n\n")
 				if vr.Chance(1, 4) {
